@@ -594,7 +594,10 @@ Definition consumer_out (wf : cval -> Z) (it : mitem) (v : value) : res Z :=
   let p := VD (ik it) (inn it) ((ipv it) mod 2^(inn it)) in
   if icons it =? 1 then do r <- evalBinaryW wf OAdd p v; evalReturnW wf (ik it) (inn it) r
   else if icons it =? 2 then do r <- evalBinaryW wf OLt p v; evalReturnW wf KBool 1 r
-  else evalReturnW wf (ik it) (inn it) v.
+  else match vkind v with
+       | KBool => evalReturnW wf KBool 1 v          (* a comparison's result is returned as bool *)
+       | _ => evalReturnW wf (ik it) (inn it) v
+       end.
 
 (* (names of the integer constants read by the SSA instructions, in listing
    order; the program's outputs) *)
@@ -608,4 +611,39 @@ Definition run_multi (items : list mitem) : res (list Z * list Z) :=
     concat (map vname vals) ++
     concat (map (fun iv => if (icons (fst iv) =? 1) || (icons (fst iv) =? 2) then vname (snd iv) else []) (combine items preps)) ++
     concat (map (fun iv => if (icons (fst iv) =? 0) || (icons (fst iv) =? 3) then vname (snd iv) else []) (combine items preps)) in
+  Ok (names, outs).
+
+(* ---------- the same source expression folded at several types ----------
+   helper with unsized parameters, instantiated once per call:
+     func op(v, a, b uint) uint { return C(v, a op b) }
+     main: return op(v_0, T_0(A), T_0(B)), op(v_1, T_1(A), T_1(B)), ...
+   Per call, in listing order: the parameter bindings "mov $A a", "mov $B b"
+   register the (cast) operand constants, then the fold of "a op b" at THIS call's
+   type is registered / consumed.  [pre]: constants registered before the first
+   call (A := .., B := .. in main).  Binary.Eval is a pure function of the
+   operator and the two TYPED operands (ssa.Value: type and mpa.Int), so every
+   call is folded on its own. *)
+Record citem := mkCall { ck : kind; cn : Z; cargs : list expr; cex : expr; ccons : Z; cpv : Z }.
+Definition item_of_call (c : citem) : mitem := mkItem (ck c) (cn c) (cex c) (ccons c) (cpv c).
+
+Fixpoint reg_calls (calls : list citem) (tbl : list (Z * cval)) (names : list Z)
+  : res (list (Z * cval) * list Z * list value) :=
+  match calls with
+  | [] => Ok (tbl, names, [])
+  | c :: rest =>
+      do avals <- res_map eval (cargs c);
+      do v <- eval (cex c);
+      do p <- consumer_prep (item_of_call c) v;
+      let tbl' := intern_val (fold_left intern_val avals tbl) p in
+      let names' := names ++ concat (map vname avals) ++ vname p in
+      do r <- reg_calls rest tbl' names';
+      let '(t, n, ps) := r in Ok (t, n, p :: ps)
+  end.
+
+Definition run_calls (pre : list expr) (calls : list citem) : res (list Z * list Z) :=
+  do pvals <- res_map eval pre;
+  do r <- reg_calls calls (fold_left intern_val pvals []) (concat (map vname pvals));
+  let '(tbl, names, preps) := r in
+  do outs <- res_map (fun cp => consumer_out (lookup_wires tbl) (item_of_call (fst cp)) (snd cp))
+                     (combine calls preps);
   Ok (names, outs).
